@@ -166,6 +166,37 @@ int main(int argc, char** argv)
                     one(D, { "--", t }, env);
                 }
         }
+        // (1b) stress: very long argument vectors (every one has a definite reference verdict)
+        for (auto& D : decls)
+        {
+            if (ctx.stop())
+                break;
+            std::vector<std::vector<std::string>> longs;
+            longs.push_back(std::vector<std::string>(1000, "-t"));
+            longs.push_back(std::vector<std::string>(1000, "x"));
+            {
+                std::vector<std::string> v;
+                for (int i = 0; i < 500; i++)
+                {
+                    v.push_back("-m");
+                    v.push_back("v" + std::to_string(i));
+                }
+                longs.push_back(v);
+            }
+            {
+                std::vector<std::string> v = { "--" };
+                for (int i = 0; i < 1000; i++)
+                    v.push_back(i % 2 ? "--opt" : "-");
+                longs.push_back(v);
+            }
+            {
+                std::vector<std::string> v(999, "--tog");
+                v.push_back("--no-tog");
+                longs.push_back(v);
+            }
+            for (auto& av : longs)
+                one(D, av, {});
+        }
         // (2) all vectors up to n, small environment set
         for (auto& D : decls)
             for (auto& env : environments(D, false))
